@@ -192,6 +192,8 @@ def build_table(gv: dict, dryness: str, maximum):
         warnings.simplefilter("ignore")
         if maximum is None:
             return build_pvt_gas(gv, dryness)
+        if float(maximum).is_integer() and how != 1:
+            maximum = int(maximum)   # whole-number maxima are usually written as Python ints (the default is 14_000)
         return build_pvt_gas(gv, dryness, maximum)
 
 
